@@ -878,7 +878,7 @@ func genCases(c *core.Ctx) []Case {
 		cs.Adders = 1 + rr.Intn(3)
 		cs.PerAdder = 10 + rr.Intn(30)
 		cs.MaxSize = 20
-		cs.Attempts = []int{0, 1, 2, 3, -1}[rr.Intn(5)]
+		cs.Attempts = []int{0, 1, 2, 3, -1, -2, -5}[rr.Intn(7)]
 		cs.RetentMs = []int{1, 2, 5}[rr.Intn(3)]
 		cs.FailEvery = 1 + rr.Intn(3)
 		if cs.Attempts >= 0 && rr.Intn(2) == 0 {
